@@ -808,7 +808,7 @@ Proof. intros a s Ha Hs. unfold unstake_whole. destruct (two64 - 1 <=? whole_of 
 
 Lemma lower_closed : forall U e, oev_closed U e -> Forall (ev_closed U) (lower e).
 Proof.
-  intros U e H. destruct e as [p|a amount hm|o a amount stake hm now|o a stake hm now|s t v]; cbn [lower oev_closed] in *.
+  intros U e H. destruct e as [p|a amount hm|o a amount stake hm now|o a stake hm now|s au t v]; cbn [lower oev_closed] in *.
   - constructor; [assumption|constructor].
   - destruct ((whole_of amount <? two64) && hm); constructor; [exact H|constructor].
   - destruct (hm && (unstake_whole amount stake <=? stake)); constructor; [exact H|constructor].
@@ -818,7 +818,7 @@ Qed.
 
 Lemma lower_wf : forall e, oev_wf e -> Forall ev_wf (lower e).
 Proof.
-  intros e H. destruct e as [p|a amount hm|o a amount stake hm now|o a stake hm now|s t v]; cbn [lower oev_wf] in *.
+  intros e H. destruct e as [p|a amount hm|o a amount stake hm now|o a stake hm now|s au t v]; cbn [lower oev_wf] in *.
   - constructor; [assumption|constructor].
   - destruct ((whole_of amount <? two64) && hm); constructor; [|constructor].
     cbn [ev_wf]. pose proof (whole_of_nonneg amount H). pose proof e18_pos. nia.
@@ -956,4 +956,24 @@ Proof.
   assert (A2 : S' * sum_snd Vs <= S' * V') by (apply Z.mul_le_mono_nonneg_l; lia).
   apply Z.le_trans with (3 * S' * V' + 0 + 7 * V' * sum_snd P + 4 * S' * sum_snd Vs); [apply Z.add_le_mono_r; exact H3|].
   generalize dependent (sum_snd P). generalize dependent (sum_snd Vs). intros. nia.
+Qed.
+
+(* AUTHCALL: the sponsor (tx origin) pays, and only the sponsor's balance decides whether the value moves; the
+   authority in whose name the call is made is irrelevant to the ledger *)
+Lemma authcall_sponsor_pays : forall s au t v l st, nonneg l -> s <> t ->
+  let c' := exec_trace_st repaired (lower (OAuthCall s au t v)) (l, st) in
+  snd c' = st /\
+  (bal l s < v \/ v < 0 -> fst c' = l) /\
+  (0 <= v <= bal l s ->
+   bal (fst c') s = bal l s - v /\ bal (fst c') t = bal l t + v /\ forall x, x <> s -> x <> t -> bal (fst c') x = bal l x).
+Proof.
+  intros s au t v l st Hn Hst. cbn [lower exec_trace_st fold_left exec_ev].
+  unfold can_transfer. cbn [cantransfer_signed repaired].
+  destruct (Z.leb_spec 0 v); destruct (Z.leb_spec v (bal l s)); cbn [andb fst snd];
+    (split; [reflexivity|]); (split; [intros [?|?]; try lia; reflexivity|]); intros (H1 & H2); try lia.
+  cbn [set_bal bal]. unfold transfer, add_bal, sub_bal. destruct (Z.ltb_spec (bal l s) v); [lia|]. cbn [fst].
+  pose proof (Hn t). repeat split.
+  - rewrite upd_other by (intro; apply Hst; congruence). rewrite upd_same. reflexivity.
+  - rewrite upd_same. rewrite upd_other by (intro; apply Hst; congruence). rewrite Z.abs_eq by lia. reflexivity.
+  - intros x Hx1 Hx2. rewrite !upd_other by assumption. reflexivity.
 Qed.
